@@ -17,7 +17,7 @@ RULE = ("G-nest: recursive laminar span families of 1-60 events over a time rang
         "pairwise from the spans. Non-trivial: >= 1 pair of events sharing an endpoint instant. Distinct = hash of the rows.")
 ASSUMPTIONS = ["spans of the thread are properly nested (generator guarantees; re-checked)",
                "known finding K1 (zero-duration event at an instant where one span ends and another begins) is reported as KNOWN-FINDING"]
-PLAN = {"quick": {"shards": 16, "cases": 4000, "timeout": 900}, "thorough": {"shards": 16, "cases": 60000, "timeout": 3400}}
+PLAN = {"quick": {"shards": 16, "cases": 8000, "timeout": 900}, "thorough": {"shards": 16, "cases": 60000, "timeout": 3400}}
 _TIES = ("shared_start", "shared_end", "identical", "touching", "zero_at_start", "zero_at_end", "zero_inside", "zero_alone", "zero_stacked")
 FLOORS = {
     "quick": dict({"distinct_nontrivial": 1000, "builder_new_runs": 2000, "builder_old_runs": 2000, "callgraph_runs": 40},
